@@ -294,7 +294,8 @@ impl<'a> Seq<'a> {
         let r = guarded(move || c.get(&key, &ChunkRange { start: s, end: e }));
         let res = match r {
             Err(_) => {
-                let key = if self.tainted.contains(&ki) { "rename-wider-range-panic" } else { "panic" };
+                // (the known finding rename-wider-range-panic is the PUT over a renamed entry; a panicking get is a different call site)
+                let key = if self.tainted.contains(&ki) { "get-panic-on-renamed-entry" } else { "panic" };
                 ctx.fail("C12", key, format!("get(key {ki}, [{s},{e})) panicked"), self.replay(ctx, seq));
                 ctx.stat("get_panic");
                 "panic".to_string()
